@@ -669,6 +669,23 @@ func main() {
 		sum.Dist["site_dynamic_index"]++
 		check(fmt.Sprintf("site:dynamic-index:%d", k), "an object whose members have different types, indexed by a value that is not a literal", src, func(rep int) result { return lintContent("gen.yaml", []byte(src), rep) })
 	}
+	// (7e) two entries of one flow mapping on one line whose reports COLLIDE in (line, column): the
+	// column inside a value counts bytes, the position of the value counts characters, so 15
+	// two-byte characters in front of a placeholder move its report 15 columns to the right - onto
+	// the placeholder of the next entry. Same-position reports keep their emission order, and the
+	// entries of env: / with: are visited in map order (300 repetitions)
+	{
+		src := "on: push\njobs:\n  a:\n    runs-on: ubuntu-latest\n    env: {A: \"" + strings.Repeat("é", 15) + "${{ x }}\", B: \"${{ y }}\"}\n    steps:\n      - run: echo\n"
+		sum.Dist["site_byte_column_collision"]++
+		first := lintContent("gen.yaml", []byte(src), 0)
+		sum.Evaluations++
+		for i := 1; i < 300; i++ {
+			if o := lintContent("gen.yaml", []byte(src), i); o != first {
+				sum.OracleFails = append(sum.OracleFails, failure{What: "two diagnostics of different entries of one flow mapping are reported at the same line:column (byte-counted column inside a value that holds multi-byte characters) and their order differs between repetitions", Key: "site:same-position-by-byte-columns", Input: "env: {A: \"<15 x é>${{ x }}\", B: \"${{ y }}\"}", First: first.Errs, Other: o.Errs, Source: src})
+				break
+			}
+		}
+	}
 	// (7) sites without a model: needs cycles, runner label conflicts (repetition only)
 	for k := 0; k < *nsite; k++ {
 		src := wfNeedsCycles(r)
